@@ -691,10 +691,22 @@ impl Exec {
                         format!("keyspace_exists({name}) != model ({existed})"),
                     ));
                 }
-                let h = self
-                    .db()
-                    .keyspace(&name, || c.options())
-                    .map_err(|e| err("keyspace-create", &name, &e))?;
+                // C18: some keyspaces are created "like" another live keyspace: from a clone of that keyspace's
+                // (doc-hidden) `config` with this keyspace's own option values set on top. Whether the new name gets
+                // a compaction filter must still be decided by the builder's assigner alone.
+                let donor = if self.cfg.assigner.is_some() && !existed && (*cfg ^ u32::from(*ks)) % 3 == 0 {
+                    self.handles.iter().filter(|(k, _)| *k != ks && self.model.ks.contains_key(*k)).map(|(_, h)| h.clone()).next_back()
+                } else {
+                    None
+                };
+                let h = match donor {
+                    Some(d) => {
+                        self.stats.inc("filter.keyspaces_created_from_cloned_config");
+                        self.db().keyspace(&name, || c.options_onto(d.config.clone()))
+                    }
+                    None => self.db().keyspace(&name, || c.options()),
+                }
+                .map_err(|e| err("keyspace-create", &name, &e))?;
                 self.handles.insert(*ks, h);
                 self.model.apply(op);
             }
